@@ -11,11 +11,12 @@ The model mirrors the Go code function by function, quirks included:
   (an unknown Go function becomes `Rule.unknown`, which no theorem accepts);
 * a special rule is consulted *before* the `o == nil` test, so `mergeToSequence x nil = x`-as-list,
   `override x nil = nil`, `mergeLogging x nil` panics, …;
-* unchecked type assertions, the nil-map store of `mergeMappings(nil, non-empty)` and `==` on two
-  slices / two maps are explicit `panic site` outcomes (`site` = the Go function that panics);
+* since the round-2 `fix:` commits no special merger panics any more: a value of the wrong kind is the error
+  "cannot override" / "unexpected type", a null value is an empty mapping, mappings and sequences are never
+  compared with `==` (`sameScalar`); the only `panic` outcome left in the model is running out of fuel;
 * `mergeUlimit` merges the override mapping *with itself* (so a list inside it is doubled);
-* `mergeIPAMConfig` keeps mutating the same `right` map across the inner loop, and the entries it
-  appended as `merged` alias that map: modelled with `none` = "alias of the current `right`".
+* `mergeIPAMConfig` (rewritten by a `fix:` commit) merges pools by subnet: `ipamFold`.
+  The pre-fix behaviours are kept as witnesses in `Neg/C04.lean`.
 
 Go maps are association lists iterated in list order (DESIGN §2.2).  Recursion takes a depth fuel
 because `mergeDependsOn` / `mergeNetworks` / `mergeIPAMConfig` first *convert* a list into a mapping
@@ -157,86 +158,64 @@ def intoSeq : Val → Option (List Val)
 
 def seqOf (v : Val) : List Val := (intoSeq v).getD []
 
-/-- the `[]any` branch of `convertIntoMapping` -/
+/-- the `[]any` branch of `convertIntoMapping`: a non-string item is an error -/
 def listIntoMap (dflt : Val) : List Val → KVs → Out KVs
   | [], acc => .ok acc
   | .str s :: r, acc => listIntoMap dflt r (insert s dflt acc)
-  | _ :: _, _ => .panic "override.convertIntoMapping"
+  | _ :: _, _ => .err "unexpectedType"
 
-/-- `convertIntoMapping(a, defaultValue)`; `ok none` = Go `nil` map. `dflt` is the value stored per key
-(`nil`, or a fresh copy of the default mapping) -/
-def intoMap (dflt : Val) : Val → Out (Option KVs)
-  | .map kvs => .ok (some kvs)
-  | .seq xs => (listIntoMap dflt xs []).bind fun m => .ok (some m)
-  | _ => .ok none
+/-- `convertIntoMapping(a, defaultValue, p)`: null is the empty mapping, a list of names becomes a mapping whose
+values are `dflt` (`nil`, or a fresh copy of the default mapping), anything else is "cannot override" -/
+def intoMap (dflt : Val) : Val → Out KVs
+  | .null => .ok []
+  | .map kvs => .ok kvs
+  | .seq xs => listIntoMap dflt xs []
+  | _ => .err "cannotOverride"
 
-/-- Go `==` on two interface values; `none` = run-time panic (both operands of the same uncomparable type) -/
-def ifaceEq : Val → Val → Option Bool
-  | .seq _, .seq _ => none
-  | .map _, .map _ => none
-  | .null, .null => some true
-  | .bool a, .bool b => some (a == b)
-  | .int a, .int b => some (a == b)
-  | .float a, .float b => some (a == b)
-  | .str a, .str b => some (a == b)
-  | _, _ => some false
+/-- `sameScalar(d, o)`: Go `==` on two interface values, except that a mapping or a sequence is never "the same" -/
+def sameScalar : Val → Val → Bool
+  | .null, .null => true
+  | .bool a, .bool b => a == b
+  | .int a, .int b => a == b
+  | .float a, .float b => a == b
+  | .str a, .str b => a == b
+  | _, _ => false
 
-/-- `slices.Contains(xs, v)` with interface `==` (stops at the first hit) -/
-def containsIface (v : Val) : List Val → Option Bool
-  | [] => some false
-  | x :: xs =>
-    match ifaceEq x v with
-    | none => none
-    | some true => some true
-    | some false => containsIface v xs
-
-/-- the filtering loop of `mergeExtraHosts` -/
-def keepNew (right : List Val) : List Val → Option (List Val)
-  | [] => some []
-  | v :: r =>
-    match containsIface v right with
-    | none => none
-    | some true => keepNew right r
-    | some false => (keepNew right r).map (v :: ·)
+/-- the filtering loop of `mergeExtraHosts`: the override's entries that the base does not already have -/
+def keepNew (right : List Val) : List Val → List Val
+  | [] => []
+  | v :: r => if right.any (fun x => sameScalar x v) then keepNew right r else v :: keepNew right r
 
 def dependsOnDefault : Val := .map [("condition", .str "service_started"), ("required", .bool true)]
 
 /-- `toBuild` of `mergeBuild` -/
-def toBuild : Val → Option KVs
-  | .str s => some [("context", .str s)]
-  | .map kvs => some kvs
-  | _ => none
+def toBuild : Val → Out KVs
+  | .null => .ok []
+  | .str s => .ok [("context", .str s)]
+  | .map kvs => .ok kvs
+  | _ => .err "cannotOverride"
 
 def hasXPrefix (k : String) : Bool :=
   match k.toList with
   | 'x' :: '-' :: _ => true
   | _ => false
 
-/-- `m["subnet"]` on a possibly-nil map -/
-def subnetOf (m : Option KVs) : Val :=
-  match m with
-  | none => .null
-  | some kvs => (lookup "subnet" kvs).getD .null
+def subnetOf (m : KVs) : Val := (lookup "subnet" m).getD .null
 
-/-- state of `mergeIPAMConfig`: `ipamConfigs` (entry `none` = the very map object `right`, which later
-merges keep mutating) and the current `right` (`none` = nil map) -/
-structure IpamSt where
-  configs : List (Option KVs)
-  right : Option KVs
+def poolsOf : List Val → Out (List KVs)
+  | [] => .ok []
+  | x :: r => (intoMap .null x).bind fun m => (poolsOf r).bind fun ms => .ok (m :: ms)
 
-def IpamSt.entry (st : IpamSt) (e : Option KVs) : KVs :=
-  match e with
-  | some m => m
-  | none => st.right.getD []
+/-- `ipamPools(v, path)` -/
+def ipamPools : Val → Out (List KVs)
+  | .null => .ok []
+  | .seq xs => poolsOf xs
+  | _ => .err "cannotOverride"
 
-/-- `slices.IndexFunc(ipamConfigs, func(a) bool { return a["subnet"] == s })`; outer `none` = panic -/
-def ipamIndex (st : IpamSt) (s : Val) : List (Option KVs) → Nat → Option (Option Nat)
-  | [], _ => some none
-  | e :: r, i =>
-    match ifaceEq ((lookup "subnet" (st.entry e)).getD .null) s with
-    | none => none
-    | some true => some (some i)
-    | some false => ipamIndex st s r (i + 1)
+/-- `slices.IndexFunc(ipamConfigs, func(a) bool { return sameScalar(a["subnet"], s) })` -/
+def ipamIndex (s : Val) : List KVs → Nat → Option Nat
+  | [], _ => none
+  | m :: r, i => if sameScalar (subnetOf m) s then some i else ipamIndex s r (i + 1)
 
 def listSet {α : Type} : List α → Nat → α → List α
   | [], _, _ => []
@@ -254,65 +233,32 @@ def mergeKVsWith (f : Val → Val → TPath → Out Val) : KVs → KVs → TPath
       if hasXPrefix k then mergeKVsWith f (insert k v a) r p
       else (f e v (next p k)).bind fun m => mergeKVsWith f (insert k m a) r p
 
-/-- `mergeMappings` on possibly-nil maps: a store into a nil map panics -/
-def mergeOptMapsWith (mk : KVs → KVs → TPath → Out KVs) : Option KVs → Option KVs → TPath → Out Val
-  | some a, some b, p => (mk a b p).bind fun m => .ok (.map m)
-  | some a, none, _ => .ok (.map a)
-  | none, some (_ :: _), _ => .panic "override.mergeMappings"
-  | none, _, _ => .ok (.map [])
+/-- the override loop of `mergeIPAMConfig`: a pool with the subnet of an existing pool is merged into it, any
+other pool is appended -/
+def ipamFold (mk : KVs → KVs → TPath → Out KVs) : List KVs → List KVs → TPath → Out (List KVs)
+  | cfgs, [], _ => .ok cfgs
+  | cfgs, left :: rest, p =>
+    match ipamIndex (subnetOf left) cfgs 0 with
+    | none => ipamFold mk (cfgs ++ [left]) rest p
+    | some i => (mk (cfgs[i]?.getD []) left p).bind fun m => ipamFold mk (listSet cfgs i m) rest p
 
-/-- inner loop of `mergeIPAMConfig`: `for _, override := range o.([]any)` -/
-def ipamInnerWith (mk : KVs → KVs → TPath → Out KVs) : List Val → IpamSt → TPath → Out IpamSt
-  | [], st, _ => .ok st
-  | ov :: rest, st, p =>
-    (intoMap .null ov).bind fun left =>
-    match ifaceEq (subnetOf left) (subnetOf st.right) with
-    | none => .panic "override.mergeIPAMConfig"
-    | some same =>
-      let doMerge : Unit → Out IpamSt := fun _ =>
-        (match st.right, left with
-          | some a, some b => (mk a b p).bind fun m => .ok (some m)
-          | some a, none => .ok (some a)
-          | none, some (_ :: _) => .panic "override.mergeMappings"
-          | none, _ => .ok none : Out (Option KVs)).bind fun merged =>
-        let st1 : IpamSt := ⟨st.configs, merged⟩
-        -- a nil `right` stays nil; `merged` is the same object as `right` otherwise
-        let entry : Option KVs := match merged with | none => some [] | some _ => none
-        match ipamIndex st1 (subnetOf merged) st1.configs 0 with
-        | none => .panic "override.mergeIPAMConfig"
-        | some (some i) => ipamInnerWith mk rest ⟨listSet st1.configs i entry, merged⟩ p
-        | some none => ipamInnerWith mk rest ⟨st1.configs ++ [entry], merged⟩ p
-      if same then doMerge ()
-      else
-        match ipamIndex st (subnetOf left) st.configs 0 with
-        | none => .panic "override.mergeIPAMConfig"
-        | some none => ipamInnerWith mk rest ⟨st.configs ++ [some (left.getD [])], st.right⟩ p
-        | some (some _) => doMerge ()
-
-/-- outer loop of `mergeIPAMConfig`: `for _, original := range c.([]any)` -/
-def ipamOuterWith (mk : KVs → KVs → TPath → Out KVs) : List Val → Val → IpamSt → TPath → Out Val
-  | [], _, st, _ => .ok (.seq (st.configs.map fun e => .map (st.entry e)))
-  | original :: rest, o, st, p =>
-    (intoMap .null original).bind fun right =>
-    match o with
-    | .seq os =>
-      (ipamInnerWith mk os ⟨st.configs, right⟩ p).bind fun st' =>
-      -- `right` goes out of scope: the entries aliasing it are frozen
-      ipamOuterWith mk rest o ⟨st'.configs.map fun e => some (st'.entry e), none⟩ p
-    | _ => .panic "override.mergeIPAMConfig"
+/-- `mergeIPAMConfig` -/
+def ipamStep (mk : KVs → KVs → TPath → Out KVs) (e o : Val) (p : TPath) : Out Val :=
+  (ipamPools e).bind fun base =>
+  (ipamPools o).bind fun other =>
+  (ipamFold mk base other p).bind fun cfgs => .ok (.seq (cfgs.map Val.map))
 
 /-- `mergeLogging` -/
 def loggingStep (mk : KVs → KVs → TPath → Out KVs) (e o : Val) (p : TPath) : Out Val :=
   match e, o with
+  | .null, _ => .ok o
+  | _, .null => .ok e
   | .map config, .map other =>
     let d := lookup "driver" other
     let c := lookup "driver" config
-    match ifaceEq (d.getD .null) (c.getD .null) with
-    | none => .panic "override.mergeLogging"
-    | some eq =>
-      if eq || d.isNone || c.isNone then (mk config other p).bind fun m => .ok (.map m)
-      else .ok o
-  | _, _ => .panic "override.mergeLogging"
+    if sameScalar (d.getD .null) (c.getD .null) || d.isNone || c.isNone then (mk config other p).bind fun m => .ok (.map m)
+    else .ok o
+  | _, _ => .err "cannotOverride"
 
 /-- the default rules of `mergeYaml` (no special merger at the path) -/
 def defaultStep (mk : KVs → KVs → TPath → Out KVs) (e o : Val) (p : TPath) : Out Val :=
@@ -326,6 +272,10 @@ def defaultStep (mk : KVs → KVs → TPath → Out KVs) (e o : Val) (p : TPath)
     | .seq _, _ => .err "cannotOverride"
     | _, _ => .ok o
 
+/-- both sides converted to mappings (first the base, then the override), then `mergeMappings` -/
+def convMerge (mk : KVs → KVs → TPath → Out KVs) (conv : Val → Out KVs) (e o : Val) (p : TPath) : Out Val :=
+  (conv e).bind fun r => (conv o).bind fun l => (mk r l p).bind fun m => .ok (.map m)
+
 /-- one application of a special merger -/
 def specialStep (mk : KVs → KVs → TPath → Out KVs) (r : Rule) (e o : Val) (p : TPath) : Out Val :=
   match r with
@@ -335,24 +285,12 @@ def specialStep (mk : KVs → KVs → TPath → Out KVs) (r : Rule) (e o : Val) 
     match o with
     | .map kvs => (mk kvs kvs p).bind fun m => .ok (.map m)
     | _ => .ok o
-  | .extraHosts =>
-    match keepNew (seqOf e) (seqOf o) with
-    | none => .panic "override.mergeExtraHosts"
-    | some l => .ok (.seq (seqOf e ++ l))
-  | .dependsOn =>
-    (intoMap dependsOnDefault e).bind fun r =>
-    (intoMap dependsOnDefault o).bind fun l =>
-    mergeOptMapsWith mk r l p
-  | .networks =>
-    (intoMap .null e).bind fun r =>
-    (intoMap .null o).bind fun l =>
-    mergeOptMapsWith mk r l p
-  | .build => mergeOptMapsWith mk (toBuild e) (toBuild o) p
+  | .extraHosts => .ok (.seq (seqOf e ++ keepNew (seqOf e) (seqOf o)))
+  | .dependsOn => convMerge mk (intoMap dependsOnDefault) e o p
+  | .networks => convMerge mk (intoMap .null) e o p
+  | .build => convMerge mk toBuild e o p
   | .logging => loggingStep mk e o p
-  | .ipam =>
-    match e with
-    | .seq cs => ipamOuterWith mk cs o ⟨[], none⟩ p
-    | _ => .panic "override.mergeIPAMConfig"
+  | .ipam => ipamStep mk e o p
   | .unknown => .err "unknown-merger"
 
 /-- the body of `mergeYaml`: a special merger if a row of the table matches the path, else the default rules;
